@@ -95,6 +95,143 @@ func c25RefEncode(data []byte) []byte {
 	return p.done()
 }
 
+// c25FlushAlign walks the code stream the legacy encoder produces for data and
+// follows two pieces of reader state: the pending output (handed to Read and
+// reset whenever it reaches flushBuffer = 4096 bytes after a code) and the
+// number k of codes since start / the last clear code (the code width grows
+// after code 255, 767 and 1791). It reports how many flushes fall exactly on a
+// width-growth code (hits) and how many fall on a neighbouring code (near),
+// plus the number of flushes. Phrase lengths only, map based.
+func c25FlushAlign(data []byte) (hits, near, flushes int) {
+	if len(data) == 0 {
+		return
+	}
+	tbl := map[uint32]uint32{}
+	plen := map[uint32]int{}
+	hi := uint32(257)
+	k, o := 0, 0
+	grow := func(k int) bool { return k == 255 || k == 767 || k == 1791 }
+	emit := func(code uint32) {
+		l := 1
+		if code >= 256 {
+			l = plen[code]
+		}
+		k++
+		o += l
+		if o >= 4096 {
+			flushes++
+			if grow(k) {
+				hits++
+			} else if grow(k-1) || grow(k+1) {
+				near++
+			}
+			o = 0
+		}
+	}
+	code := uint32(data[0])
+	for i := 1; i < len(data); i++ {
+		key := code<<8 | uint32(data[i])
+		if v, ok := tbl[key]; ok {
+			code = v
+			continue
+		}
+		emit(code)
+		l := 1
+		if code >= 256 {
+			l = plen[code]
+		}
+		code = uint32(data[i])
+		hi++
+		if hi == 4095 {
+			tbl = map[uint32]uint32{}
+			plen = map[uint32]int{}
+			hi, k = 257, 0
+			continue
+		}
+		tbl[key] = hi
+		plen[hi] = l + 1
+	}
+	emit(code)
+	return
+}
+
+// c25Family builds structured inputs whose code streams have long phrases, so
+// that the reader's 4096 byte output flush can be steered onto a chosen code
+// index by one parameter (prm).
+//
+//	0: prm distinct literals, then a long run of one byte
+//	1: prm random bytes, then runs of a few bytes
+//	2: prm random bytes, then a pattern of period p repeated
+//	3: a run, prm distinct literals, another long run (flush inside the second segment of output)
+func c25Family(fam, prm int, seedBytes []byte, runByte byte, period, total int) []byte {
+	var b []byte
+	switch fam {
+	case 0:
+		for i := 0; i < prm; i++ {
+			b = append(b, byte(int(seedBytes[0])+i))
+		}
+	case 1, 2:
+		for i := 0; i < prm; i++ {
+			b = append(b, seedBytes[i%len(seedBytes)]^byte(i/len(seedBytes)*37))
+		}
+	default:
+		b = append(b, bytes.Repeat([]byte{runByte ^ 0x55}, 4096+int(seedBytes[1]))...)
+		for i := 0; i < prm; i++ {
+			b = append(b, byte(int(seedBytes[0])+i))
+		}
+	}
+	for len(b) < total {
+		switch fam {
+		case 1:
+			n := 1500 + int(seedBytes[len(b)%len(seedBytes)])*8
+			b = append(b, bytes.Repeat([]byte{runByte + byte(len(b)%3)}, n)...)
+		case 2:
+			b = append(b, seedBytes[:period]...)
+		default:
+			b = append(b, runByte)
+		}
+	}
+	return b[:total]
+}
+
+// c25Aligned searches a family parameter such that a reader flush coincides
+// with a width-growth code (or, when wantNear, is next to one).
+func c25Aligned(g *Gen, max int) []byte {
+	fam := g.Intn(4)
+	target := g.Pick(255, 255, 767, 1791)
+	seedBytes := g.Bytes(2048)
+	runByte := byte(g.Intn(256))
+	period := 1 + g.Intn(9)
+	total := 4300 + g.Intn(max-4300+1)
+	if fam == 3 {
+		total += 4400
+	}
+	lo, hi := target-150, target+12
+	if fam == 0 || fam == 3 {
+		lo, hi = 0, 255
+	}
+	if lo < 0 {
+		lo = 0
+	}
+	start := lo + g.Intn(hi-lo+1)
+	var best []byte
+	for d := 0; d <= hi-lo; d++ {
+		prm := lo + (start-lo+d)%(hi-lo+1)
+		b := c25Family(fam, prm, seedBytes, runByte, period, total+prm)
+		hits, near, _ := c25FlushAlign(b)
+		if hits > 0 {
+			return b
+		}
+		if near > 0 && best == nil {
+			best = b
+		}
+	}
+	if best != nil {
+		return best
+	}
+	return c25Family(fam, start, seedBytes, runByte, period, total)
+}
+
 func c25Sparse(g *Gen, n, ones int) []byte {
 	b := make([]byte, n)
 	for i := 0; i < ones && n > 0; i++ {
@@ -282,8 +419,27 @@ func c25Gen(g *Gen) {
 	if g.Tier == "thorough" {
 		max = 12288
 	}
+	if g.Tier == "thorough" {
+		// sweeps: every number of leading distinct literals before a long run, and
+		// periodic patterns, at sizes that cross several flushes (4..40 KiB)
+		runByte := byte(g.Intn(256))
+		sb := g.Bytes(2048)
+		for L := 0; L <= 255; L++ {
+			g.Emit("c %s", hx(c25Family(0, L, sb, runByte, 1, L+4200+g.Intn(400))))
+		}
+		for L := 0; L <= 255; L += 5 {
+			g.Emit("c %s", hx(c25Family(3, L, sb, runByte, 1, L+8800+g.Intn(400))))
+		}
+		for p := 1; p <= 12; p++ {
+			g.Emit("c %s", hx(c25Family(2, g.Intn(300), sb, runByte, p, 20000+g.Intn(20000))))
+		}
+	}
 	for i := 0; i < g.N; i++ {
-		switch g.Intn(10) {
+		switch g.Intn(11) {
+		case 10:
+			// long inputs steered so that the reader's output flush (every 4096
+			// bytes) falls on / next to a code where the code width grows
+			g.Emit("c %s", hx(c25Aligned(g, max)))
 		case 0, 1, 2, 3, 4, 5:
 			g.Emit("c %s", hx(c25Input(g, max)))
 		case 6:
@@ -421,6 +577,14 @@ func (r *c25Runner) step(t []string, o *Oracle) string {
 			}
 			if len(z)*2 < len(x) {
 				o.Count("c-compressible")
+			}
+			if hits, near, fl := c25FlushAlign(x); fl > 0 {
+				o.Count("c-reader-flushes")
+				if hits > 0 {
+					o.Count("c-flush-on-width-growth-code")
+				} else if near > 0 {
+					o.Count("c-flush-next-to-width-growth-code")
+				}
 			}
 		}
 		s := "nort"
